@@ -499,6 +499,24 @@ VSBs(s, p) ==
 
 Unknowns == {T([t |-> "unknown", kind |-> k], "kind=" \o k) : k \in {"empty", "field15", "garbage"}}
 
+(* THE CATCH-UP ROUND BUDGET.  HeightVoteSet.AddVote creates the vote sets of a round it does not track when a    *)
+(* peer's vote names it - BEFORE the vote is verified - and charges the peer (peerCatchupRounds) at that moment:  *)
+(* at most CatchupLimit = 2 rounds per peer and height, a further vote for an untracked round is refused           *)
+(* (ErrGotVoteFromUnwantedRound) and nothing is created.  KardiaNode!AddVote: `catchup` is appended in s0          *)
+(* whatever v.ok is.  This is the bound on what ONE peer can make the node allocate with well-formed votes that    *)
+(* fail verification - invisible to a per-message allocation bound (each round is small), visible in the STATE.    *)
+(* VoteVec(s, n): the (n+1)-th vote of a directed vector: a vote of the current height for a FRESH round nobody     *)
+(* tracks (distinct for every position), in every verification class.                                               *)
+CatchupLimit == 2
+FreshRound(s, n) == s.r + 3 + n
+VoteVec(s, n) ==
+  LET base(ty) == [t |-> "vote", kind |-> "vote", type |-> ty, h |-> s.h, r |-> FreshRound(s, n), idx |-> 0, who |-> 1, bid |-> NilBidW, sig |-> "ok"] IN
+  { T(base(PrevoteT), "vec-valid"), T(base(PrecommitT), "vec-valid-pc"),
+    T([base(PrevoteT) EXCEPT !.sig = "bad"], "vec-badsig"),
+    T([base(PrevoteT) EXCEPT !.idx = N], "vec-wrongindex"),
+    T([base(PrevoteT) EXCEPT !.who = 3], "vec-wrongaddr"),
+    T([base(PrevoteT) EXCEPT !.who = 0], "vec-outsider") }
+
 Catalogue(s, p) == NRSs(s, p) \cup NVBs(s, p) \cup HVs(s, p) \cup Maj23s(s, p) \cup Props(s, p) \cup POLs(s, p)
                    \cup Parts(s, p) \cup Votes(s, p) \cup VSBs(s, p) \cup Unknowns
 \* every message on its own channel; the base messages also on every other channel
